@@ -612,8 +612,8 @@ inductive Differs (T : Table) : Kind → Val → Val → Prop
   /-- a leaf (None, number, string, empty container) against any other value -/
   | leaf {k : Kind} {v w : Val} : k.regE = true → k ≠ .skip → (v.isLeaf = true ∨ w.isLeaf = true) → v ≠ w →
       leafExcept k v w = false → Differs T k v w
-  /-- two reals further apart than 10⁻¹⁰ under rounding -/
-  | real {a b : Rat} : (1 / 10000000000 < a - b ∨ 1 / 10000000000 < b - a) → Differs T .r10 (.num a) (.num b)
+  /-- two reals in different 10-decimal buckets under rounding (in particular: further apart than 10⁻¹⁰, `Differs.real_far`) -/
+  | real {a b : Rat} : round10 a ≠ round10 b → Differs T .r10 (.num a) (.num b)
   /-- a container against an object -/
   | shapeCO {k : Kind} {h t : Val} {c : Cls} {f : Val} : k.regE = true → k ≠ .skip → Differs T k (.cons h t) (.obj c f)
   | shapeOC {k : Kind} {h t : Val} {c : Cls} {f : Val} : k.regE = true → k ≠ .skip → Differs T k (.obj c f) (.cons h t)
@@ -630,6 +630,9 @@ inductive Differs (T : Table) : Kind → Val → Val → Prop
       Differs T K (.cons h t) w
   | memR {K k : Kind} {h t w y : Val} : K.setElem = some k → y ∈ elems w → (∀ x ∈ h :: elems t, Differs T k x y) →
       Differs T K (.cons h t) w
+
+theorem Differs.real_far (T : Table) {a b : Rat} (h : 1 / 10000000000 < a - b ∨ 1 / 10000000000 < b - a) :
+    Differs T .r10 (.num a) (.num b) := .real (round10_far a b h)
 
 theorem rel_leaf_false_l (T : Table) (k : Kind) (v w : Val) (hk : k.regE = true) (hs : k ≠ .skip)
     (hl : v.isLeaf = true) (hne : v ≠ w) (hex : leafExcept k v w = false) : rel T v k w = false := by
@@ -680,7 +683,7 @@ theorem differs_sound (T : Table) (hT : T.RegE) {k : Kind} {v w : Val} (h : Diff
   | leaf hk hs hl hne hex => exact rel_leaf_false T _ _ _ hk hs hl hne hex
   | real hab =>
     simp only [rel, beq_eq_false_iff_ne, ne_eq]
-    exact round10_far _ _ hab
+    exact hab
   | shapeCO hk hs => rename_i k h t c f; cases k <;> simp_all [rel, Kind.regE, setRel, elems, anyV, allV]
   | shapeOC hk hs => exact rel_obj_other T _ _ _ _ (Kind.regE_reg hk) hs (by simp)
   | cls hk hs hc =>
